@@ -193,7 +193,7 @@ def templates():
         add('reject-%s' % case, 'rejections', cost=0.1, case=case)
     for how in ('dims', 'axis.name', 'set_axis'):
         add('rename-duplicate-%s' % how, 'rename_duplicate', cost=0.1, how=how)
-    quick = cat.select(max_per_fn=10)
+    quick = cat.select(max_per_fn=12)
     qnames = set((c['mod'], c['name']) for c in quick)
     for c in quick:
         for prime in (False, True):
